@@ -47,6 +47,25 @@ def check_counts(spec, start, nmax, order_seed, ctx, tag="C01"):
                     f"count_objects_of_size({n}, {dict(zip(names, vals))}) = {c}, brute force = {truth.get(vals, 0)} for {start}",
                 )
         ctx.stat("count_queries", (n + 1) ** len(names) + 1)
+    # History dimension: the counts of the start class must not depend on which other classes of the
+    # specification were asked before (shared caches).  Every rule is read in a seeded order at seeded
+    # sizes (the answers are not judged), then the start class is read again one size further.
+    rng = _random.Random(order_seed ^ 0x5EED)
+    rules = list(spec.rules_dict.values())
+    rng.shuffle(rules)
+    for rule in rules[:12]:
+        try:
+            rule.get_terms(rng.randint(0, nmax + 1))
+        except NotImplementedError:
+            pass
+    for n in (nmax + 1, rng.randint(0, nmax)):
+        truth = WW.truth_terms(start, n)
+        got = spec.get_terms(n)
+        if +got != +truth:
+            raise Violation(
+                f"{tag}:terms-mismatch-after-reading-other-classes",
+                f"get_terms({n}) = {sorted((+got).items())} after other classes of the specification were read; brute force = {sorted(truth.items())} for start class {start}",
+            )
 
 
 def _strategy_in_pack(strategy, allowed):
